@@ -907,7 +907,12 @@ MANIFEST_ENTRY = {
              '(writes per handedness, default, rejection of unknown handedness) are TRANSLATED; PROVED: both have unit intensity and left is orthogonal to right; the generated polariser applied to the '
              'generated linear vector gives (c c\' + s s\')(c, s), i.e. intensity cos^2(theta - phi) with Real.cos (Malus with the library\'s own constructors); circular light through an ideal '
              'polariser keeps half its intensity at every orientation. MODELLED AND COMPARED: both vector constructors and polariser @ vector; on the real code also array angle grids vs scalar calls, '
-             'degrees default, QWP at 45 deg makes a circular state.'),
+             'degrees default, QWP at 45 deg makes a circular state. Second pass: broadcast_kron TRANSLATED as an index map (einsum letters + reshape) and proved equal to the model kron and to Mathlib\'s '
+             'Kronecker product under the column convention of the Mueller theorems; apply_polarization_optic TRANSLATED (entry * field sample) and a uniform optic proved to commute with polarised '
+             'propagation for every homogeneous propagator; facts: the adapter forwards all remaining positional / keyword arguments and appends (2,2) to a component result, add_jones_propagation wraps '
+             'exactly the listed functions. PROVED: M(J) S(E) = S(J E) for all complex J, E (S(E) = U (conj E kron E)); pure Stokes vectors satisfy s0 = |Ex|^2+|Ey|^2, s0^2 = s1^2+s2^2+s3^2, so every '
+             'Jones-derived Mueller matrix maps the boundary of the Stokes cone into itself; Mueller rotation covariance M(R(-t) J R(t)) = M(R(t))^-1 M(J) M(R(t)). PARTIAL: preservation of the INTERIOR of '
+             'the cone (partially polarised inputs) is stated (stokes_cone_full) and only exercised numerically (stokes family, pure and mixed inputs).'),
     'note': ('Trusted: Lean kernel + standard axioms; translator (incl. reading jones_rotation_matrix(-theta) as (cos theta, -sin theta)); '
              'NumPy matmul/einsum/kron/inv; IEEE rounding. Not covered: circular_pol_vector(shape=...) '
              '(raises IndexError - outside the statement); apply_polarization_optic for ndim != 2 (docstring and code disagree; outside the '
